@@ -20,7 +20,7 @@ def nontrivial(case, s, infos):
     return False
 
 
-check_case, run, replay = gfi_hist.make_prop(CFG, CHECKS, nontrivial=nontrivial, examples=(8, 8))
+check_case, run, replay = gfi_hist.make_prop(CFG, CHECKS, nontrivial=nontrivial, examples=(6, 6))
 
 
 def probes(ctx):
